@@ -19,7 +19,8 @@ POS = [(1, OK), (7, OK), (96, OK), (0, FREE), (-1, REJ), (1.5, REJ), ("3", REJ),
 # refusal, which the statement does not forbid)
 TIP = [({"$tip": "Any"}, OK), (3, OK), ({"$tip": "T8"}, OK), ([1, 2], OK), ([{"$tip": "T2"}, 2], OK), ({"$iter": [1, {"$tip": "T3"}]}, OK), ({"$tuple": [8, 1]}, OK), (0, REJ), (9, REJ), ([1, {"$tip": "Any"}], REJ), ({"$iter": [1, 0]}, REJ)]
 # the status of an exclusion list depends on the destination range and is decided in one_r
-EXCL = [({"$none": 1}, OK), ([], OK), ([3], OK), ([1, 12], OK), ([5, 3], OK), ([3, 3], FREE), ([0], OK), ([13], OK), ([3, 20], OK)]
+EXCL = [({"$none": 1}, OK), ([], OK), ([3], OK), ([1, 12], OK), ([5, 3], OK), ([3, 3], FREE), ([0], OK), ([13], OK), ([3, 20], OK),
+        ({"$iter": [5, 3]}, OK), ({"$tuple": [2, 9, 4]}, OK), ({"$set": [7, 2]}, OK), ({"$iter": [3, 20]}, OK)]  # one-shot iterators, tuples, sets
 DIRECTION = [("left_to_right", OK), ("right_to_left", OK), ("up", REJ), ("", REJ)]
 
 AD_FIELDS = {
@@ -137,7 +138,7 @@ class Harness(cm.BaseB):
                                     if fields[f2][v2][1] != OK or fields[f1][v1][1] != OK or fields[f0][v0][1] != OK or (v0 + v1 + v2) % 3 == 0:
                                         yield dict(base, dev={f0: v0, f1: v1, f2: v2})
         elif k == "simple":
-            for cls in ("BaseWorklist", "EvoWorklist", "FluentWorklist"):
+            for cls in ("BaseWorklist", "EvoWorklist", "FluentWorklist", "Worklist", "Worklist:pos", "FluentWorklist:pos", "BaseWorklist:mixed"):
                 for diti in (False, True):
                     for em, rows in SIMPLE.items():
                         for i in range(len(rows)):
@@ -229,6 +230,9 @@ class Harness(cm.BaseB):
             status = REJ if REJ in (status, st) else FREE if FREE in (status, st) else OK
         raw = args
         args = {k: (v["$npi"] if isinstance(v, dict) and "$npi" in v else v) for k, v in raw.items()}  # what the oracle reads
+        for tag in ("$iter", "$tuple", "$set"):
+            if isinstance(args["exclude_wells"], dict) and tag in args["exclude_wells"]:
+                args["exclude_wells"] = list(args["exclude_wells"][tag])
         # interactions between fields: exclusions must lie inside the (possibly changed) destination range
         ds, de, ex = args["dst_start"], args["dst_end"], args["exclude_wells"]
         if status != REJ and isinstance(ex, list) and ex and isinstance(ds, int) and isinstance(de, int):
@@ -271,7 +275,7 @@ class Harness(cm.BaseB):
     # ------------------------------------------------------------------ one-field records and comments
     def one_simple(self, case):
         a, st, rec = SIMPLE[case["em"]][case["i"]]
-        wl = getattr(rt, case["cls"])(max_volume=50, diti_mode=case["diti"])
+        wl = cm.make_worklist(case["cls"], max_volume=50, diti_mode=case["diti"])
         wl.append("C;before")
         status, expect = st, rec
         if case["diti"]:
@@ -290,7 +294,7 @@ class Harness(cm.BaseB):
 
     def one_comment(self, case):
         text, expect = COMMENTS[case["i"]]
-        wl = getattr(rt, case["cls"])(max_volume=50, diti_mode=case["diti"])
+        wl = cm.make_worklist(case["cls"], max_volume=50, diti_mode=case["diti"])
         wl.append("C;before")
         status = REJ if expect is None else OK
         try:
